@@ -293,6 +293,14 @@ class Rewriter:
                 self.log.append(('R20', 'for %s in %s (by value, items only read) -> iteration by reference' % (m20.group(1), name)))
                 text = text[:m20.start()] + 'for %s in %s.iter() {' % (m20.group(1), name) + text[m20.end():]
                 text = self.range_loops(text, ['iter:'])
+            elif frag.startswith('sliceparam:'):
+                # R20': `for [&]V in NAME {` with NAME a parameter of type &[T] (a shared slice: IntoIterator for &[T] IS .iter())
+                # -> `for [&]V in NAME.iter() {`, every occurrence; a following `iter:` entry turns them into index loops (R1)
+                name = frag[len('sliceparam:'):].strip()
+                text, n20 = re.subn(r'\bfor\s+(&?\s*\w+)\s+in\s+%s\s*\{' % re.escape(name), r'for \1 in %s.iter() {' % name, text)
+                if not n20:
+                    raise SrcError('R20: no `for .. in %s {`' % name)
+                self.log.append(('R20', 'for .. in %s (shared slice parameter) -> %s.iter(), %d occurrence(s)' % (name, name, n20)))
             elif frag.startswith('itermut:') or frag.startswith('iter:'):
                 # R7 / R1': for V in <iterable over a Vec/slice place> { B } -> index loop.
                 # iterable := &[mut] BASE | BASE.iter() | BASE.iter_mut(), BASE may end in a range
